@@ -6,6 +6,7 @@
 
 #include <dlfcn.h>
 #include <locale.h>
+#include <locale>
 #include <stdlib.h>
 
 #include "../rt/sim_api.h"
@@ -99,9 +100,39 @@ inline float floatv(int x, int y, int c, int seed) { return (float)(x + 100 * y 
 
 }  // namespace
 
+static std::string locale_dir()
+{
+  Dl_info di;
+  if (!dladdr((void *)&locale_dir, &di) || !di.dli_fname)
+    return "";
+  std::string dir(di.dli_fname);
+  size_t slash = dir.rfind('/');
+  return (slash == std::string::npos ? std::string(".") : dir.substr(0, slash)) + "/locale";
+}
+
 extern "C" void c20trace_run()
 {
   const C20TPlan *p = c20t_plan();
+  // std::locale::global(std::locale("")) under de_DE, fr_FR, ...: every stream created afterwards formats numbers that way
+  std::locale::global(std::locale::classic());
+  setlocale(LC_ALL, "C");
+  struct Restore
+  {
+    ~Restore()
+    {
+      std::locale::global(std::locale::classic());
+      setlocale(LC_ALL, "C");
+    }
+  } restore;
+  if (p->cxx_locale) {
+    setenv("LOCPATH", locale_dir().c_str(), 1);
+    try {
+      std::locale::global(std::locale("xx_XX"));
+      c20t_locale_result(1);
+    } catch (const std::exception &) {
+      c20t_locale_result(0);  // the test locale was not built: the run stays in the classic locale
+    }
+  }
   rkcommon_verif_trace_chunk = p->chunk;
   TraceRecorder *rec = nullptr;
   if (!p->global_api) {
